@@ -56,10 +56,29 @@ def gen_gene(rng, lo, hi, idx, seqname, single_isoform):
         else:
             return None
         t["transcript_id"] = f"tx{idx}_{i}"
+        if coding and rng.random() < 0.12:
+            # what a transcript carries after it was parsed from a GenBank file and then edited: the CDS record's own
+            # qualifiers as free qualifiers, possibly stale (the CDS record written for it must win)
+            q = t.get("qualifiers") or {}
+            q["codon_start"] = [rng.choice(["1", "2", "3"])]
+            t["qualifiers"] = q
         t["transcript_type"] = "protein_coding" if coding else None
         if coding:
             t["protein_id"] = f"prot{idx}_{i}" if rng.random() < 0.8 else None
         txs.append(t)
+    if coding and not single_isoform and rng.random() < 0.35:
+        # an isoform with the very same CDS blocks read from another start frame (5'-partial variant of the same CDS)
+        k = rng.randrange(len(txs))
+        v = copy.deepcopy(txs[k])
+        first = 0 if strand == "PLUS" else -1
+        old_f0 = {"ZERO": 0, "ONE": 1, "TWO": 2}[v["cds_frames"][first]]
+        new_f0 = rng.choice([f for f in (0, 1, 2) if f != old_f0])
+        if specs.blocks_len(v["cds_starts"], v["cds_ends"]) - new_f0 >= 3:
+            v["cds_frames"] = specs.frames_for(v["cds_starts"], v["cds_ends"], strand, new_f0)
+            v["transcript_id"] = v["transcript_id"] + "v"
+            if v.get("protein_id"):
+                v["protein_id"] += "v"
+            txs.insert(k + rng.choice([0, 1]), v)
     gtype = "protein_coding" if coding else rng.choice(NONCODING)
     for t in txs:
         if not coding:
